@@ -97,6 +97,9 @@ def translate():
     # build, which is how the broken code tie reaches the properties concerned — see CODE_TIE below)
     rc2, out2 = run([sys.executable, os.path.join(VERIF, "tools", "py2lean.py"), REPO, os.path.join(LEAN, "PlumVerif", "Generated")])
     CODE_TIE["translator_rc"], CODE_TIE["translator"] = rc2, out2[-1500:]
+    # second part (classes: wire types, network / version structures, frame object) -> Generated/PyCodeTypes.lean
+    rc3, out3 = run([sys.executable, os.path.join(VERIF, "tools", "py2lean_types.py"), REPO, os.path.join(LEAN, "PlumVerif", "Generated")])
+    CODE_TIE["translator_rc"], CODE_TIE["translator"] = (rc2 or rc3), (out2[-1000:] + out3[-1000:])
     return rc, out
 
 
